@@ -1,3 +1,5 @@
+//go:debug tls10server=1
+
 // vharness: correspondence drivers and property oracles, run against /repo's working tree (built with
 // -tags verif -overlay). One subcommand per property.
 package main
